@@ -248,11 +248,12 @@ def check_strings(res):
         for k in range(-len(parts), len(parts)):
             if call('splitcomp', s, ':', k) != parts[k]:
                 res.violation('h18:splitcomp', 'splitcomp is the k-th component', {'s': s, 'k': k}, call('splitcomp', s, ':', k), parts[k])
-        for pat in ('a', 'B+', '(a)(B)?', '^ ', 'x', ':$', '[aB]+'):
+        # patterns that match the empty string (a match, not NULL) are part of the scope: a*, ^, $, optional groups
+        for pat in ('a', 'B+', '(a)(B)?', '^ ', 'x', ':$', '[aB]+', 'a*', '^', '$', '(a*)(B*)', 'q?'):
             m = re.search(pat, s)
             if call('grep', pat, s) != (m.group(0) if m else None):
                 res.violation('h18:grep', 'grep is the first regex match or NULL', {'pattern': pat, 's': s}, call('grep', pat, s), m.group(0) if m else None)
-            if pat == '(a)(B)?':
+            if pat in ('(a)(B)?', '(a*)(B*)'):
                 for g in (0, 1, 2):
                     if call('grepn', pat, s, g) != (m.group(g) if m else None):
                         res.violation('h18:grepn', 'grepn is the n-th group of the first match or NULL', {'pattern': pat, 's': s, 'n': g}, call('grepn', pat, s, g), m.group(g) if m else None)
